@@ -7,6 +7,7 @@
    Definitions only; the facts are in Mem/SVecFacts.v. *)
 From FV Require Import Base.Bytes Base.U64 Base.Map.
 From FV Require Export Mem.SeqN.
+From Coq Require Import Orders Mergesort.
 Open Scope N_scope.
 
 Record svec := { sv_len : N; sv_m : list (N * N) }.
@@ -57,16 +58,55 @@ Definition sv_slice (s : svec) (a n : N) : svec := sv_blit {| sv_len := n; sv_m 
 Definition sv_to_list (s : svec) : bytes := map (sv_get s) (seqN 0 (N.to_nat (sv_len s))).
 
 (* ---------- canonical sparse view: sorted (position, non-zero byte) pairs ---------- *)
-Fixpoint ins_key (k : N) (l : list N) : list N :=
-  match l with
-  | [] => [k]
-  | x :: r => if k <? x then k :: l else if k =? x then l else x :: ins_key k r
-  end.
-Definition sort_keys (l : list N) : list N := fold_right ins_key [] l.
+Module NLeOrder <: Orders.TotalLeBool.
+  Definition t := N.
+  Definition leb := N.leb.
+  Lemma leb_total : forall a b, is_true (leb a b) \/ is_true (leb b a).
+  Proof. intros a b. unfold leb, is_true. destruct (N.leb_spec a b); [left; reflexivity|right; apply N.leb_le; lia]. Qed.
+End NLeOrder.
+Module NSort := Mergesort.Sort NLeOrder.
 
+Fixpoint dedup_sorted (l : list N) : list N :=
+  match l with
+  | x :: ((y :: _) as r) => if x =? y then dedup_sorted r else x :: dedup_sorted r
+  | _ => l
+  end.
+Definition sort_keys (l : list N) : list N := dedup_sorted (NSort.sort l).
+
+(* entries tagged with their position in the list, sorted by (key, position): the first entry of
+   every run of equal keys is the one `aget` finds *)
+Module EntryOrder <: Orders.TotalLeBool.
+  Definition t := (N * (N * N))%type.            (* key, (position, byte) *)
+  Definition leb (a b : t) : bool :=
+    if fst a =? fst b then fst (snd a) <=? fst (snd b) else fst a <=? fst b.
+  Lemma leb_total : forall a b, is_true (leb a b) \/ is_true (leb b a).
+  Proof.
+    intros [k1 [p1 v1]] [k2 [p2 v2]]. unfold leb, is_true; cbn [fst snd].
+    rewrite (N.eqb_sym k2 k1). destruct (N.eqb_spec k1 k2).
+    - destruct (N.leb_spec p1 p2); [left; reflexivity | right; apply N.leb_le; lia].
+    - destruct (N.leb_spec k1 k2); [left; reflexivity | right; apply N.leb_le; lia].
+  Qed.
+End EntryOrder.
+Module EntrySort := Mergesort.Sort EntryOrder.
+
+Fixpoint tag_entries (p : N) (m : list (N * N)) : list (N * (N * N)) :=
+  match m with [] => [] | (k, v) :: r => (k, (p, v)) :: tag_entries (p + 1) r end.
+(* keep the first entry of every run of equal keys; `prev` is the key of the previous entry *)
+Fixpoint first_of_runs (prev : option N) (l : list (N * (N * N))) : list (N * N) :=
+  match l with
+  | [] => []
+  | (k, (_, v)) :: r =>
+      match prev with
+      | Some k0 => if k0 =? k then first_of_runs prev r else (k, v) :: first_of_runs (Some k) r
+      | None => (k, v) :: first_of_runs (Some k) r
+      end
+  end.
 Definition sv_keys (s : svec) : list N := sort_keys (map fst (sv_m s)).
+(* sorted (position, byte) for the positions below the length that hold a non-zero byte;
+   equal to filtering `sv_get` over the sorted keys, computed in O(n log n) *)
 Definition sv_nz (s : svec) : list (N * N) :=
-  filter (fun kv => negb (snd kv =? 0)) (map (fun k => (k, sv_get s k)) (sv_keys s)).
+  filter (fun kv => (fst kv <? sv_len s) && negb (snd kv =? 0))
+         (first_of_runs None (EntrySort.sort (tag_entries 0 (sv_m s)))).
 
 (* ---------- equality of two ranges of equal length n (used by MemoryInstance::eq) ---------- *)
 Definition sv_range_keys (s : svec) (o n : N) : list N :=
